@@ -432,5 +432,6 @@ def explore(ex, key, c, first_choice=None):
             pr = PathResult(ci, list(oracle.prefix), outcome, st.obligations if err is None else [], getattr(st, 'inputs', {}), err)
             pr.old_heap = st.old_heap or {}
             pr.final_pc = list(st.pc)
+            pr.calls = sorted({k_ for t_, k_ in st.notes if t_ == 'call'})
             results.append(pr)
     return results, unsupported
